@@ -24,4 +24,5 @@ func registerStreams(m map[string]Stream) {
 	m["clientwire"] = clientWireStream{}
 	m["tdlive"] = tdLiveStream{}
 	m["session"] = sessionStream{}
+	m["tdbindwire"] = tdBindWireStream{}
 }
